@@ -268,6 +268,28 @@ def align(inp_pos, inp, out, deletable):
     n, m = len(inp_pos), len(out)
     if m > n:
         return False
+    if all(isinstance(inp[i], int) for i in inp_pos) and all(isinstance(b, int) for b in out):
+        # everything concrete (large fixed documents): the same recurrence over the *set* of reachable output positions
+        # (small in practice), instead of one formula per cell
+        d0 = n - m
+        reach = {0}
+        conc = True
+        for k, i in enumerate(inp_pos, 1):
+            dele = deletable(i)
+            if not isinstance(dele, bool):
+                conc = False
+                break
+            nxt = set()
+            for j in reach:
+                if dele and j >= k - d0:
+                    nxt.add(j)
+                if j < m and inp[i] == out[j]:
+                    nxt.add(j + 1)
+            reach = nxt
+            if not reach:
+                return False
+        if conc:
+            return m in reach
     d = n - m
     # f[k][j]: inp_pos[:k] can produce out[:j]; only j in [k-d, k] can be true
     prev = {0: True}
